@@ -23,6 +23,8 @@ fn shape_of(b: B, sql: &str) -> Result<String, String> {
     let col_of = |s: &str| s.strip_prefix('c').and_then(|x| x.parse::<u64>().ok());
     // DEFAULT VALUES forms
     if word(i, "DEFAULT") && word(i + 1, "VALUES") && i + 2 == t.len() { return Ok("default *".into()); }
+    // zero default rows were requested: nothing follows VALUES
+    if word(i, "VALUES") && i + 1 == t.len() { return Ok("default 0".into()); }
     if word(i, "VALUES") {
         // VALUES (DEFAULT), … | VALUES (), …
         let mut n = 0; let mut j = i + 1;
@@ -80,6 +82,7 @@ fn check(ctx: &mut Ctx, ops: &[Op]) {
     let mut exp_cols: usize = 0;
     let mut exp_rows: Vec<Vec<u64>> = Vec::new();
     let mut exp_select: Option<Vec<u64>> = None;
+    let mut exp_defaults: Option<usize> = None;
     let mut recount = false;
     for op in ops {
         if dead { break; }
@@ -146,7 +149,7 @@ fn check(ctx: &mut Ctx, ops: &[Op]) {
                     }
                 }
             }
-            Op::Defaults(n) => { if n == 1 { st.or_default_values(); } else { st.or_default_values_many(n as u32); } outs.push("ok".into()); }
+            Op::Defaults(n) => { if n == 1 { st.or_default_values(); } else { st.or_default_values_many(n as u32); } outs.push("ok".into()); exp_defaults = Some(n); }
         }
     }
     for b in B::all() {
@@ -164,6 +167,10 @@ fn check(ctx: &mut Ctx, ops: &[Op]) {
         } else {
             ctx.case(line.clone(), expect, ops.len() >= 2, &|| format!("{} on {}", lc, bn));
         }
+        // oracle: the default-row form carries as many rows as the LAST default request asked for
+        if !dead { if let (Some(n), Some(k)) = (exp_defaults, shape.strip_prefix("default ").and_then(|x| x.parse::<usize>().ok())) {
+            if n != k { ctx.oracle_fail("the default-row form does not carry the number of rows that was requested last", serde_json::json!({"history": line, "backend": bn, "rendered": shape, "requested": n})); }
+        } }
         // oracle: rectangular VALUES list, rows and cells in call order
         if !dead && shape.starts_with("values ") {
             let want = format!("values {} [{}]", fmt_list(&(0..exp_cols as u64).collect::<Vec<_>>()), exp_rows.iter().map(|r| fmt_list(r)).collect::<Vec<_>>().join(","));
@@ -190,10 +197,10 @@ pub fn run(ctx: &mut Ctx) {
     let mut calls: Vec<Op> = Vec::new();
     for n in 0..=3 { calls.push(Op::Columns(n)); calls.push(Op::Values(n)); }
     for n in [0usize, 1, 2] { calls.push(Op::ValuesPanic(n)); calls.push(Op::SelectFrom(n)); }
-    calls.push(Op::Defaults(1)); calls.push(Op::Defaults(3));
+    calls.push(Op::Defaults(1)); calls.push(Op::Defaults(3)); calls.push(Op::Defaults(0));
     calls.push(Op::ValuesFrom(vec![1, 1])); calls.push(Op::ValuesFrom(vec![2, 1])); calls.push(Op::ValuesFrom(vec![2, 2, 0])); calls.push(Op::ValuesFrom(vec![0, 1]));
     let maxlen = if thorough { 5 } else { 4 };
-    ctx.rule = format!("ALL call histories of length 0..={} over the {} calls {{columns(0..3), values(0..3), values_panic(0..2), select_from(0..2), or_default_values, or_default_values_many(3), values_from_panic with 4 batch shapes}} (exhaustive), plus {} random histories up to length 9 with counts up to 6; each rendered on 3 backends. Compared with the model: per-call outcome (ok / err with both counts / panic) and the INSERT shape parsed back from the SQL. Oracle: acceptance iff lengths match, error payload, statement unchanged (==) after a rejected call, rendered rows = accepted rows in call order, rectangularity. Non-trivial = at least 2 calls; distinct by history.", maxlen, calls.len(), if thorough { 100000 } else { 20000 });
+    ctx.rule = format!("ALL call histories of length 0..={} over the {} calls {{columns(0..3), values(0..3), values_panic(0..2), select_from(0..2), or_default_values, or_default_values_many(3), or_default_values_many(0), values_from_panic with 4 batch shapes}} (exhaustive), plus {} random histories up to length 9 with counts up to 6; each rendered on 3 backends. Compared with the model: per-call outcome (ok / err with both counts / panic) and the INSERT shape parsed back from the SQL. Oracle: acceptance iff lengths match, error payload, statement unchanged (==) after a rejected call, rendered rows = accepted rows in call order, rectangularity. Non-trivial = at least 2 calls; distinct by history.", maxlen, calls.len(), if thorough { 100000 } else { 20000 });
     for len in 0..=maxlen {
         let mut idx = vec![0usize; len];
         loop {
